@@ -119,6 +119,55 @@ def _family_bounded_task(args):
             "wall_s": round(time.time() - t0, 3)}
 
 
+def _child(fn, task, conn):
+    try:
+        conn.send(fn(task))
+    except BaseException as e:           # never let a worker die silently
+        try:
+            conn.send({"__error__": repr(e)})
+        except Exception:
+            pass
+    finally:
+        conn.close()
+
+
+def run_tasks(fn, tasks, procs, deadline_s):
+    """runs fn(task) for every task in its own forked process, at most `procs` at a time; a task that exceeds the
+    wall-clock deadline is killed (a stuck solver call cannot stall the check) and yields a marker"""
+    ctx = mp.get_context("fork")
+    results = [None] * len(tasks)
+    running = {}
+    nxt = 0
+    while nxt < len(tasks) or running:
+        while nxt < len(tasks) and len(running) < procs:
+            parent, child = ctx.Pipe(duplex=False)
+            p = ctx.Process(target=_child, args=(fn, tasks[nxt], child))
+            p.start()
+            child.close()
+            running[nxt] = (p, parent, time.time())
+            nxt += 1
+        for i, (p, conn, t0) in list(running.items()):
+            done = False
+            if conn.poll(0):
+                try:
+                    results[i] = conn.recv()
+                except (EOFError, OSError):
+                    results[i] = None
+                done = True
+            elif not p.is_alive():
+                done = True
+            elif time.time() - t0 > deadline_s:
+                p.kill()
+                results[i] = {"__timeout__": deadline_s}
+                done = True
+            if done:
+                p.join(timeout=5)
+                conn.close()
+                del running[i]
+        time.sleep(0.005)
+    return results
+
+
 def load_findings():
     p = os.path.join(VERIF, "known_findings.json")
     if not os.path.exists(p):
@@ -211,9 +260,19 @@ def main(argv=None):
         tasks = [(prop, f.name, k, timeout_ms, cfg) for cfg in configs for f in fams for k in f.kinds()
                  if cfg in getattr(f, "configs", ["int64", "int32"])]
         if tasks:
-            ctx = mp.get_context("fork")
-            with ctx.Pool(min(a.procs, len(tasks)), maxtasksperchild=8) as pool:
-                proof_results = pool.map(_proof_task, tasks, chunksize=1)
+            deadline = 300 if tier == "quick" else 1200
+
+            def guarded(results, tks):
+                out = []
+                for r, tk in zip(results, tks):
+                    if not isinstance(r, dict) or "__timeout__" in r or "__error__" in r or "obligations" not in r:
+                        why = ("exceeded the wall-clock budget of %ss and was stopped" % r["__timeout__"]) if isinstance(r, dict) and "__timeout__" in r \
+                            else ("worker failed: %s" % (r.get("__error__") if isinstance(r, dict) else "no result"))
+                        r = {"family": tk[1], "kind": tk[2], "config": tk[4], "paths": 0, "wall_s": 0, "obligations": [
+                            {"name": f"{tk[1]}/{tk[2]}/engine", "status": "undecided", "kind": "engine", "reason": why, "time": 0.0}]}
+                    out.append(r)
+                return out
+            proof_results = guarded(run_tasks(_proof_task, tasks, min(a.procs, len(tasks)), deadline), tasks)
             # solver budgets must not make verdicts flip when all cores are busy: (family, kind) tasks with a timed-out
             # obligation are run once more, few at a time, with four times the budget
             retry = [i for i, r in enumerate(proof_results)
@@ -221,8 +280,7 @@ def main(argv=None):
                             for o in r["obligations"])]
             if retry:
                 tasks2 = [tasks[i][:3] + (tasks[i][3] * 4, tasks[i][4]) for i in retry]
-                with ctx.Pool(min(4, len(tasks2)), maxtasksperchild=4) as pool:
-                    again = pool.map(_proof_task, tasks2, chunksize=1)
+                again = guarded(run_tasks(_proof_task, tasks2, min(4, len(tasks2)), deadline * 2), tasks2)
                 for i, r in zip(retry, again):
                     r["retried"] = True
                     proof_results[i] = r
@@ -282,9 +340,12 @@ def main(argv=None):
     fam_bounded = []
     if fams and not a.no_bounded:
         tasks = [(prop, f.name, tier, seed) for f in fams]
-        ctx = mp.get_context("fork")
-        with ctx.Pool(min(a.procs, len(tasks))) as pool:
-            fam_bounded = pool.map(_family_bounded_task, tasks, chunksize=1)
+        fam_bounded = []
+        for r, tk in zip(run_tasks(_family_bounded_task, tasks, min(a.procs, len(tasks)), 600), tasks):
+            if not isinstance(r, dict) or "evaluations" not in r:
+                checker_errors.append(f"family-level bounded cross-check of {tk[1]} did not finish: {r}")
+                r = {"family": tk[1], "evaluations": 0, "nontrivial": 0, "violations": [], "samples": [], "wall_s": 0}
+            fam_bounded.append(r)
         for fb in fam_bounded:
             fam_all_proved = all(o["status"] == "proved" for o in obligations if o["family"] == fb["family"]) and \
                 any(o["family"] == fb["family"] for o in obligations)
